@@ -18,7 +18,7 @@
 (***************************************************************************)
 EXTENDS Naturals, Sequences, FiniteSets, TLC, Json, IOUtils
 
-CONSTANTS Mode      \* "gen17" | "chk17" | "gen16" | "chk16" | "gen18" | "chk18"
+CONSTANTS Mode      \* "gen17" | "chk17" | "gen16" | "chk16" | "geng" | "chkg" | "gen18" | "chk18"
 
 VARIABLES phase
 vars == <<phase>>
@@ -101,6 +101,28 @@ ValidTokenPasses(o) ==
     (InScope16(o.segs) /\ ~Exempt16(o.segs) /\ o.spelling = "canonical") =>
         \A t \in DOMAIN o.d : (o.tokstate[t] = "valid") => o.d[t] # "forbidden"
 
+\* ------------------------------------------------------------------ C16: gRPC request types
+\* o = [type, words (the type name split at capitals), carrier, tok, ctok, d, changed, leaked]
+\* classification is by NAME: cluster-internal = Raft* or *Route*; connection level = the two check requests;
+\* everything else (including any type registered in the future) reads or changes data
+IsClusterType(w) == w[1] = "Raft" \/ Has(w, "Route")
+IsConnType(w) == w \in {<<"Server", "Check", "Request">>, <<"Health", "Check", "Request">>}
+IsDataType(w) == ~IsClusterType(w) /\ ~IsConnType(w)
+TokStates == {"absent", "empty", "garbage", "expired", "valid"}
+TokCarriers == {"accessToken", "Authorization"}
+CTokStates == {"absent", "empty", "garbage", "prefix", "extended", "casefold", "valid"}
+RefusedG == {"refused_auth", "refused_cluster"}
+\* a data request without a login token is refused whatever else it carries (a cluster token grants nothing)
+GrpcNoDataWithoutToken(o) ==
+    (IsDataType(o.words) /\ o.tok \in Bad16) => (o.d = "refused_auth" /\ ~o.changed /\ ~o.leaked)
+GrpcValidTokenPasses(o) ==
+    (IsDataType(o.words) /\ o.tok = "valid") => o.d \in {"handled", "no_handler"}
+\* a cluster-internal request is refused unless it carries exactly the configured cluster token
+ClusterNeedsClusterToken(o) ==
+    (IsClusterType(o.words) /\ o.ctok # "valid") => (o.d \in RefusedG /\ ~o.changed /\ ~o.leaked)
+ClusterTokenPasses(o) ==
+    (IsClusterType(o.words) /\ o.ctok = "valid" /\ o.tok = "absent") => o.d = "handled"
+
 \* ------------------------------------------------------------------ C18: namespace privilege
 \* o = [endpoint, op ("read" | "write" | "list"), ns (namespace really addressed), spelling, priv, allowed, d, leaked]
 \* allowed = whitelisted and not blacklisted (computed by the harness from the privilege shape with the
@@ -140,6 +162,20 @@ Gen16 == (Mode = "gen16" /\ phase = "done") =>
     \A i \in 1..Len(Routes) : \A m \in Methods16 :
         PrintT(<<"REPLAY", ToJson([path |-> Routes[i].path, canon |-> Routes[i].canon, segs |-> Routes[i].segs,
                                    spelling |-> Routes[i].spelling, method |-> m])>>)
+
+\* gRPC: every registered request type x carrier x token state x cluster-token state
+\* (an absent token has no carrier: generated once)
+GenG == (Mode = "geng" /\ phase = "done") =>
+    \A i \in 1..Len(Routes) : \A t \in TokStates : \A ca \in TokCarriers : \A ct \in CTokStates :
+        (t = "absent" /\ ca # "accessToken") \/
+        PrintT(<<"REPLAY", ToJson([type |-> Routes[i].type, words |-> Routes[i].words, carrier |-> ca, tok |-> t, ctok |-> ct])>>)
+ChkG == (Mode = "chkg" /\ phase = "done") =>
+    \A i \in 1..Len(Obs) :
+        LET o == Obs[i] IN
+        /\ GrpcNoDataWithoutToken(o) \/ PrintT(<<"REQ-FAILED", "GrpcNoDataWithoutToken", i>>)
+        /\ GrpcValidTokenPasses(o) \/ PrintT(<<"REQ-FAILED", "GrpcValidTokenPasses", i>>)
+        /\ ClusterNeedsClusterToken(o) \/ PrintT(<<"REQ-FAILED", "ClusterNeedsClusterToken", i>>)
+        /\ ClusterTokenPasses(o) \/ PrintT(<<"REQ-FAILED", "ClusterTokenPasses", i>>)
 
 Gen18 == (Mode = "gen18" /\ phase = "done") =>
     \A i \in 1..Len(Routes) : \A w \in WlShapes : \A b \in BlShapes : \A nsp \in NsSpellings :
